@@ -40,6 +40,7 @@ type Machine struct {
 	Problems []string
 	predCache map[string]tri
 	inlineDepth int
+	retTok      int
 }
 
 func (m *Machine) info() *types.Info { return m.Pkg.TypesInfo }
